@@ -51,11 +51,14 @@ def run(ctx):
     if quick:
         runs = [("one-directive", conf(2, 2, 2, 1), None),
                 ("two-directives", conf(2, 2, 1, 2), None),
+                ("deep-flat", conf(4, 0, 1, 3, RL2), None),
                 ("sample", conf(4, 2, 2, 3, RL3, 45), None)]
     else:
         runs = [("one-directive", conf(3, 2, 2, 1), "coverage"),
                 ("two-directives-2subs", conf(2, 2, 2, 2), None),
                 ("two-directives-nested", conf(3, 2, 1, 2, RL2), None),
+                ("deep-flat", conf(5, 0, 1, 3, RL2), None),
+                ("deep-flat-2subs", conf(3, 0, 2, 3), None),
                 ("sample", conf(4, 2, 2, 4, RL3, 160), None)]
     beh_files = []
     for tag, defs, cov in runs:
@@ -66,7 +69,7 @@ def run(ctx):
         if m.behaviours == 0:
             raise MachineryFault("Ignore.tla (%s) emitted no behaviour" % tag)
         if cov:
-            dead = [a for a in m.coverage_zero if a in ("SubOpen", "SubClose", "Stmt", "Trail", "IfOpen", "Else", "IfClose", "Place")]
+            dead = [a for a in m.coverage_zero if a in ("SubOpen", "SubClose", "Stmt", "Trail", "IfOpen", "Else", "Elif", "IfClose", "Place")]
             if dead:
                 raise MachineryFault("Ignore.tla actions never taken: %s" % dead)
         ctx.notes.setdefault("programs_by_run", {})[tag] = m.behaviours
